@@ -70,15 +70,18 @@ void run(const Value& plan, Result& r)
             if (std::fabs(printed[k] - norms[k]) > 1e-5 * std::fabs(norms[k]) + 1e-300)
                 r.fail("C01.printed_norm_differs", fmt("it %zu printed %g recorded %g", k, printed[k], norms[k]));
     if (rate_set) {
-        // F9 (DESIGN 7): the cycle stagnates (rho ~ 0.94) on grids whose angular resolution is >= 8x the radial one;
-        // F16: on an annulus (R0 >= 0.3) already 4x makes some V(1,1) cycles diverge.  Both are keyed by the grid shape,
-        // so that the same verdict on any ordinary grid is still an alarm.
+        // F9 (DESIGN 7): the cycle stagnates (rho ~ 0.94) on grids whose angular resolution is >= 8x the radial one.
+        // F16: the V(1,1) cycle on >= 3 levels diverges for some non-circular geometries on an annulus (R0 >= 0.1) with the
+        // Dirichlet treatment of the inner boundary (rho 1.2 with the shipped Shafranov parameters on 65x128; W, V(2,2),
+        // fewer levels, a pin hole or the circular geometry converge).  Both are keyed by configuration, so that the
+        // same verdict anywhere else is still an alarm.
         const bool over    = grid.ntheta() >= 8 * (grid.nr() - 1);
-        const bool annulus = !over && o.R0 >= 0.3 && grid.ntheta() >= 4 * (grid.nr() - 1);
+        const bool annulus = !over && o.cycle == 0 && o.pre == 1 && o.post == 1 && o.dirbc && o.R0 >= 0.1 &&
+                             o.prob.geometry != 0 && GMGPolarVerifAccess::number_of_levels(*s) >= 3;
         if (over)
             r.probe("angularly_overrefined");
         if (annulus)
-            r.probe("angularly_overrefined_annulus");
+            r.probe("v11_on_annulus_noncircular");
         if (its >= o.max_iterations) {
             // Not an alarm when the residual has reached the rounding floor of its own evaluation: the requested
             // tolerance is then below what double precision can represent for this system (e.g. a relative tolerance
@@ -90,12 +93,12 @@ void run(const Value& plan, Result& r)
                 r.probe("rounding_floor_reached");
             else
                 r.fail(over ? "C01.not_converged.on_angularly_overrefined_grid"
-                            : annulus ? "C01.not_converged.on_angularly_overrefined_annulus" : "C01.not_converged",
+                            : annulus ? "C01.not_converged.v11_on_annulus_noncircular" : "C01.not_converged",
                        fmt("no convergence within %d iterations (last ||r||=%g, first %g, rounding floor %g): %s",
                            o.max_iterations, last, norms.empty() ? -1.0 : norms.front(), fl.bound, o.str().c_str()));
         }
         if (its > 0 && !(rho < 1.0) && r.probes.count("rounding_floor_reached") == 0)
-            r.fail(annulus ? "C01.reduction_factor_not_below_one.on_angularly_overrefined_annulus"
+            r.fail(annulus ? "C01.reduction_factor_not_below_one.v11_on_annulus_noncircular"
                            : "C01.reduction_factor_not_below_one",
                    fmt("rho=%g its=%d: %s", rho, its, o.str().c_str()));
     }
